@@ -101,19 +101,16 @@ fn read_sheet_header(
         None => return Err(SheetParseError::new(1, format!("Sheet was empty"))),
     };
 
-    let row_strs: Vec<String> = first_row
+    // Number the cells before dropping the ones that are not names, so that a blank
+    // (or numeric) header cell does not shift the index of every column after it.
+    let named_cols: Vec<(String, usize)> = first_row
         .into_iter()
-        .filter(|cell| match &cell {
-            DataType::String(_) => true,
-            _ => false,
-        })
-        .map(|cell| match cell {
-            DataType::String(s) => s.clone(),
-            v => panic!("DataType was {v:?}"),
+        .enumerate()
+        .filter_map(|(i, cell)| match cell {
+            DataType::String(s) => Some((s.clone(), i)),
+            _ => None,
         })
         .collect();
 
-    Ok(HashMap::from_iter(
-        row_strs.into_iter().enumerate().map(|(i, v)| (v, i)),
-    ))
+    Ok(HashMap::from_iter(named_cols.into_iter()))
 }
